@@ -194,6 +194,7 @@ class RandQ:
     def obj(self, kind, scope, d):
         """an expression of record kind E / J / T"""
         vs = [n for n, k in scope if k == kind]
+        vs += [self.unpack(n, k, 0) for n, k in scope if isinstance(k, tuple) and k[0] == "pk" and k[2] == kind]
         opts = [lambda: self.rng.choice(vs)] * (3 if vs else 0)
         if d > 0 and kind in ("J", "T"):
             opts.append(lambda: self._first(kind, scope, d - 1))
@@ -246,8 +247,11 @@ class RandQ:
 
     def intx(self, scope, d):
         r = self.rng
-        objs = [(n, k) for n, k in scope if k in self.FIELDS]
+        objs = [(n, k) for n, k in scope if isinstance(k, str) and k in self.FIELDS]
+        objs += [(self.unpack(n, k, 0), k[2]) for n, k in scope
+                 if isinstance(k, tuple) and k[0] == "pk" and k[2] in self.FIELDS]
         ints = [n for n, k in scope if k == "I"]
+        ints += [self.unpack(n, k, 1) for n, k in scope if isinstance(k, tuple) and k[0] == "pk"]
         opts = [lambda: str(r.randint(0, 5))]
         if ints:
             opts += [lambda: r.choice(ints)] * 2
@@ -310,14 +314,57 @@ class RandQ:
         if ek == "E":
             opts.append(lambda: "ds")
         for n, k in scope:
-            if k in self.FIELDS:
+            if isinstance(k, tuple) and k[0] == "pk":
+                n, k = self.unpack(n, k, 0), k[2]
+            if isinstance(k, str) and k in self.FIELDS:
                 for f, fk in self.FIELDS[k]:
                     if fk == ("seq", ek):
                         opts.append(lambda n=n, f=f: f"{n}.{f}")
         if d > 0:
             opts += [lambda: self._where(ek, scope, d - 1), lambda: self._select(ek, scope, d - 1),
-                     lambda: self._smany(ek, scope, d - 1)]
+                     lambda: self._smany(ek, scope, d - 1),
+                     lambda: self._pack_unpack(ek, scope, d - 1)]
         return self.pick(opts) if opts else None
+
+    def unpack(self, name, kind, which):
+        """projection of a packed variable: component 0 (a record of kind kind[2]) or 1 (an int)"""
+        form = kind[1]
+        if form in ("tup", "lst"):
+            return f"{name}[{which}]"
+        key = "ab"[which]
+        return f"{name}.{key}" if self.rng.random() < 0.5 else f"{name}[{key!r}]"
+
+    def _pack_unpack(self, ek, scope, d):
+        """an earlier stage packages (record, int) into a tuple / list / dict, optional filter on
+        the package, a later stage takes it apart again"""
+        r = self.rng
+        k1 = r.choice(["J", "T", "E"])
+        s = self.seq(k1, scope, d)
+        if s is None:
+            return None
+        v = self.fresh(scope)
+        sc = self.bind(scope, v, k1)
+        a, b = self.obj(k1, sc, d), self.intx(sc, d)
+        if a is None or b is None:
+            return None
+        form = r.choice(["tup", "lst", "dict"])
+        pk = {"tup": f"({a}, {b})", "lst": f"[{a}, {b}]", "dict": f"{{'a': {a}, 'b': {b}}}"}[form]
+        packed = f"Select({s}, lambda {v}: {pk})"
+        kind = ("pk", form, k1)
+        if r.random() < 0.4:
+            w = self.fresh(scope)
+            c = self.boolx(self.bind(scope, w, kind), max(d - 1, 0))
+            if c is not None:
+                packed = f"Where({packed}, lambda {w}: {c})"
+        p = self.fresh(scope)
+        body = self.any_of(ek, self.bind(scope, p, kind), d)
+        if body is None:
+            return None
+        if r.random() < 0.3 and isinstance(ek, str):
+            body2 = self.seq(ek, self.bind(scope, p, kind), d)
+            if body2 is not None:
+                return f"SelectMany({packed}, lambda {p}: {body2})"
+        return f"Select({packed}, lambda {p}: {body})"
 
     def _src_kind(self):
         return self.rng.choice(["E", "J", "T", "J"])
